@@ -314,11 +314,16 @@ PROPS = {
             "precondition of translate_to_csp: no fixed_gamma_* values (negated carve-out of the known finding KF-C19-fixed-gamma)",
             "L19: gamma-_k - gamma+_k > mv_k - mf_k for the minima of the compilation entries iff the revised ranking accepts conditional k (arithmetic of minima)",
             "the three compilations list, per conditional, exactly the verifying / falsifying worlds with their rank and the other conditionals they verify / falsify (bounded: agreement of the compilations with a brute force)",
+            "MASK: a literal mask returned by _extract_cond_masks decides verification / falsification of its conditional from two bits of a world (bounded: module c19 compares the mask path with the solver path)",
+            "CRevisionModel.__init__ establishes the representation invariant for the empty model; to_compilation reads the caches faithfully (bounded)",
         ],
         explanation="Engine P proves the constraint-system side of c-revision from the real source: symbolize_minima_expression (every "
         "compilation entry becomes rank + sum of gamma- over rejected + sum of gamma+ over accepted, gamma_plus_zero honoured), encoding "
         "(minima, the skip rule, gamma- - gamma+ > mv - mf) and translate_to_csp (the pysmt constraint list holds under an assignment "
-        "exactly when the revision's constraint system does). The world-level compilations, the z3 search (Pareto) and histories of the "
+        "exactly when the revision's constraint system does), and the incremental model as a data structure against an abstract view: "
+        "add_conditional and remove_conditional preserve the representation invariant WF (for every world, world_acc / world_rej are exactly "
+        "the indices of the current conditionals the world verifies / falsifies), so the classification after any sequence of additions "
+        "and removals is that of the current conditionals. The world-level compilations, the z3 search (Pareto) and to_compilation of the "
         "incremental model are decided by the bounded module (acceptance of the revised ranking over explicit worlds, existence search, "
         "Pareto minimality, agreement of the three compilations, add/remove histories).",
     ),
